@@ -206,7 +206,10 @@ var validDirections = []uint8{0, 1, 2, 3, 2 | 4, 3 | 4, 2 | 4 | 8, 3 | 4 | 8}
 
 var someFeatures = []string{"liga", "kern", "smcp", "frac", "ss01", "calt", "dlig", "tnum", "zero", "case", "vert", "rvrn"}
 
-var someLanguages = []string{"", "en", "fr", "ar", "ja", "tr", "hi", "zh-hant", "und", "xx-unknown", "sr"}
+// regional variants of one primary language are listed in pairs: several of them are written
+// in different scripts (az-az / az-ir, mn-mn / mn-cn, pa / pa-pk, ku-tr / ku-iq, zh-*)
+var someLanguages = []string{"", "en", "fr", "ar", "ja", "tr", "hi", "zh-hant", "und", "xx-unknown", "sr",
+	"az-az", "az-ir", "mn-mn", "mn-cn", "pa", "pa-pk", "ku-tr", "ku-iq", "zh-cn", "zh-tw", "zh-hk", "en-us", "en-gb", "sr-latn", "fr-ca"}
 
 func scriptOf(text []rune) language.Script {
 	for _, r := range text {
